@@ -97,6 +97,30 @@ def cmp_layer(ck):
                             s, r = evaluate(lambda: op(view, cval))
                             lines.append(f"sf cmp {CMP_NAME[opn]} {mask} {c09.hexs(range(256))} {c}")
                             meta.append((name, opn, c, "".join("1" if x else "0" for x in r) if s == "ok" else "exc:" + str(r)))
+    # non-integral constants (python and numpy floats), and the function forms of the comparisons with the view on either side
+    NPF = {"<": np.less, "<=": np.less_equal, ">": np.greater, ">=": np.greater_equal, "==": np.equal, "!=": np.not_equal}
+    for fmt in (0, 6):
+        rec = c09.new_record(fmt, 256, ck.rng)
+        for cname, name, mask in c09.subfields(fmt):
+            rec.array[cname] = np.arange(256, dtype="u1")
+            view = rec[name]
+            plain = np.array(view)
+            mx = mask >> c09.lsb_of(mask)
+            for c in [-0.5, 0.5, 1.5, mx - 0.5, mx + 0.5, 2.0, float(mx), -1.0]:
+                for oname, cval in (("float", c), ("np.float64", np.float64(c)), ("np.float32", np.float32(c))):
+                    for opn in ("<", "<=", ">", ">=", "==", "!="):
+                        op = OPS[opn]
+                        inp = {"kind": "cmp_float", "fmt": fmt, "field": name, "op": opn, "operand": oname, "c": c, "finding_key": "C10:cmp:float"}
+                        compare(ck, f"fmt {fmt} {name} {opn} {oname}({c})", lambda: op(view, cval), lambda: op(plain, cval), inp)
+                        ck.count("cmp:float")
+            for c in [0, 1, mx, mx + 1, -1, 2]:
+                for oname, cval in (("int", c), ("np.int64", np.int64(c)), ("np.uint8", np.uint8(c)) if c >= 0 else ("np.int8", np.int8(c))):
+                    for opn, fn in NPF.items():
+                        inp = {"kind": "cmp_func", "fmt": fmt, "field": name, "op": opn, "operand": oname, "c": c, "finding_key": "C10:cmp:func"}
+                        compare(ck, f"fmt {fmt} np.{fn.__name__}({name}, {oname}({c}))", lambda: fn(view, cval), lambda: fn(plain, cval), inp)
+                        compare(ck, f"fmt {fmt} np.{fn.__name__}({oname}({c}), {name})", lambda: fn(cval, view), lambda: fn(cval, plain), dict(inp, view_is="second"))
+                        compare(ck, f"fmt {fmt} {oname}({c}) {opn} {name}", lambda: OPS[opn](cval, view), lambda: OPS[opn](cval, plain), dict(inp, view_is="right operand"))
+                        ck.count("cmp:func_forms")
     out = ck.driver(lines)
     bad = None
     if out is None:
